@@ -193,6 +193,62 @@ def _typed_sites(ctx, R, rid, closure):
     return n, typed
 
 
+def _worklist_closure(ctx, R, rid):
+    """every work-list loop of get_all_hrefs_of_instances re-queues what it discovers (transitive closure over ancestors / descendants)"""
+    P = ctx.P
+    hc = P.cls(HREF, "HRef")
+    ga = hc.methods.get("get_all_hrefs_of_instances")
+    if ga is None:
+        raise AnalysisError("anchor vanished: HRef.get_all_hrefs_of_instances")
+    n = 0
+    for w in walk_local(ga.node):
+        if isinstance(w, ast.While) and isinstance(w.test, ast.Name):
+            W = w.test.id
+            pops = any(isinstance(c, ast.Call) and isinstance(c.func, ast.Attribute) and norm(c.func.value) == W and c.func.attr in ("pop", "popleft") for c in ast.walk(w))
+            if not pops:
+                continue
+            n += 1
+            pushes = any((isinstance(c, ast.Call) and isinstance(c.func, ast.Attribute) and norm(c.func.value) == W and c.func.attr in ("append", "extend", "appendleft"))
+                         or (isinstance(c, ast.AugAssign) and norm(c.target) == W) for s_ in w.body for c in ast.walk(s_))
+            if pushes:
+                R.ok(rid, "work list `%s` is re-fed inside its loop" % W, ga.loc(w))
+            else:
+                R.bad(rid, "%s|worklist %s not re-fed" % (ga.key, n), ga.loc(w),
+                      "get_all_hrefs_of_instances: the loop over the work list `%s` never queues what it discovers, so it stops after one level: occurrences "
+                      "three or more levels below the top instance are missed" % W)
+    R.count("work-list loops in get_all_hrefs_of_instances", n)
+    R.floor("work-list loops in get_all_hrefs_of_instances", 2)
+
+
+def _h_yield_guards(ctx, R, rid):
+    """no occurrence is returned twice: the yield-guard rule of C13 (Q5) on the five hierarchical query modules"""
+    from .query_rules import _yield_guard, _triple
+    P = ctx.P
+    n = 0
+    for m in H_MODULES:
+        mod = P.module(UTIL + m + ".py")
+        name, pub, mid, raw = _triple(mod)
+        guards = {}
+        roles = {}
+        for y in walk_local(raw.node):
+            if isinstance(y, ast.Yield):
+                idiom, desc = _yield_guard(raw, y)
+                guards[id(y)] = (idiom, desc)
+        for y in walk_local(raw.node):
+            if not isinstance(y, ast.Yield):
+                continue
+            n += 1
+            idiom, desc = guards[id(y)]
+            if idiom:
+                R.ok(rid, "%s: yield %s [%s]" % (raw.qualname, norm(y.value), idiom), raw.loc(y))
+            else:
+                ctxs = [short(p.test, 50) for p in parent_chain(y) if isinstance(p, ast.If)][:2]
+                R.bad(rid, "%s|yield %s|%s" % (raw.key, norm(y.value), " / ".join(ctxs)), raw.loc(y),
+                      "%s: `yield %s` (under `%s`) %s: the same hierarchical reference can be returned twice" % (raw.qualname, norm(y.value), " / ".join(ctxs), desc))
+    R.count("yields in hierarchical raw generators", n)
+    R.floor("yields in hierarchical raw generators", 35)
+
+
 # ------------------------------------------------------------------------------------------------
 @register("C11",
           "Static analysis of hierarchical_reference.py and the five hierarchical query modules: H1 HRef objects are constructed only in "
@@ -393,6 +449,10 @@ def check_c11(ctx, R):
     yields_in_loop = [y for y in walk_local(ga.node) if isinstance(y, ast.Yield)]
     R.count("yield sites in the downward search", len(yields_in_loop))
     R.floor("yield sites in the downward search", 2)
+    R.rule("H7b", "the upward and downward work lists of get_all_hrefs_of_instances are closed under discovery")
+    _worklist_closure(ctx, R, "H7b")
+    R.rule("H11", "no occurrence is reported twice: every yield of the hierarchical queries is de-duplicated on the value it yields")
+    _h_yield_guards(ctx, R, "H11")
     # H8
     R.rule("H8", "the ancestor walks of is_valid / is_unique use the cursor variable, not self")
     for pname in ("is_valid", "is_unique"):
@@ -513,6 +573,10 @@ def check_c12(ctx, R):
             R.ok("H5", "%s accepts %s" % (m, sorted(accepted)), pub.loc())
     R.count("queries with a selection option (H5)", n_sel)
     R.floor("queries with a selection option (H5)", 8)
+    R.rule("H7b'", "the occurrence enumeration the traces start from is closed under discovery")
+    _worklist_closure(ctx, R, "H7b'")
+    R.rule("H11'", "each hierarchical pin / wire of a trace is reported once, de-duplicated on the value yielded")
+    _h_yield_guards(ctx, R, "H11'")
     # H9
     R.rule("H9", "closure filters compare whole references, not bare items")
     n9 = 0
